@@ -122,3 +122,17 @@ package lightning
 //@   tags C03
 //@   calls (*CLNClient).Post asserts @hash [C03] typeis(body, mapof(string, string)) && ("payment_hash" in unbox(body, mapof(string, string))) && unbox(body, mapof(string, string))["payment_hash"] == hash
 //@   ensures @settled [C03] r1 == nil ==> (r0.Settled <==> invoice.Status == "paid")
+
+// ---- invoice creation (C02, C03; A-LN1 at the adapter): the node is asked for an invoice of exactly the requested
+// amount - amount sat = amount * 1000 msat in MATHEMATICAL integers (no wrap-around) - and the invoice handed back
+// is labelled with that amount
+//@ func (*CLNClient).CreateInvoice
+//@   tags C02 C03
+//@   calls (*CLNClient).Post asserts @amount [C02,C03] typeis(body, mapof(string, any)) && ("amount_msat" in unbox(body, mapof(string, any))) && typeis(unbox(body, mapof(string, any))["amount_msat"], uint64) && unbox(unbox(body, mapof(string, any))["amount_msat"], uint64) == amount * 1000
+//@   ensures @labelled [C02,C03] r1 == nil ==> r0.Amount == amount
+
+//@ func (*LndClient).CreateInvoice
+//@   tags C02 C03
+//@   calls (lnrpc.LightningClient).AddInvoice asserts @amount [C02,C03] amount < 9223372036854775808 ==> in.Value == amount
+//@   calls (lnrpc.LightningClient).AddInvoice asserts @negative [C02,C03] amount >= 9223372036854775808 ==> in.Value < 0
+//@   ensures @labelled [C02,C03] r1 == nil ==> r0.Amount == amount
